@@ -16,15 +16,15 @@ import (
 )
 
 // originTimeout is a net.Error reporting a timeout.
-type originTimeout struct{}
+type zzoriginTimeout struct{}
 
-func (originTimeout) Error() string   { return "dial tcp 10.0.0.9:80: i/o timeout" }
-func (originTimeout) Timeout() bool   { return true }
-func (originTimeout) Temporary() bool { return true }
+func (zzoriginTimeout) Error() string   { return "dial tcp 10.0.0.9:80: i/o timeout" }
+func (zzoriginTimeout) Timeout() bool   { return true }
+func (zzoriginTimeout) Temporary() bool { return true }
 
-type countingResMod struct{ calls []int }
+type zzcountingResMod struct{ calls []int }
 
-func (m *countingResMod) ModifyResponse(res *http.Response) error {
+func (m *zzcountingResMod) ModifyResponse(res *http.Response) error {
 	m.calls = append(m.calls, res.StatusCode)
 	return nil
 }
@@ -34,21 +34,21 @@ func (m *countingResMod) ModifyResponse(res *http.Response) error {
 // chunked response; a second, well-formed request follows on the same client
 // connection.
 func VerifC03OriginFaults() {
-	first := reqSpec{method: "GET", path: "/one", hval: "a"}
-	second := reqSpec{method: "GET", path: "/two", hval: "b"}
-	conn := newClientConn("client", true, first.wire(), second.wire())
-	full := resSpec{status: 200, hval: "x", framing: vf.Choice("origin-framing", 2), body: vf.Bytes("origin-body", 3)}.wire()
-	good := resSpec{status: 200, hval: "y", body: []byte("second")}.wire()
+	first := zzreqSpec{method: "GET", path: "/one", hval: "a"}
+	second := zzreqSpec{method: "GET", path: "/two", hval: "b"}
+	conn := zznewClientConn("client", true, first.wire(), second.wire())
+	full := zzresSpec{status: 200, hval: "x", framing: vf.Choice("origin-framing", 2), body: vf.Bytes("origin-body", 3)}.wire()
+	good := zzresSpec{status: 200, hval: "y", body: []byte("second")}.wire()
 	fault := vf.Choice("fault", 3)
 	refusal := 0
 	if fault == 0 {
 		refusal = vf.Choice("refusal-shape", 6)
 	}
 	var k int
-	o := &origin{}
+	o := &zzorigin{}
 	o.answer = func(i int, req *http.Request) (*http.Response, error) {
 		if i > 0 {
-			return rawResponse(good, req)
+			return zzrawResponse(good, req)
 		}
 		switch fault {
 		case 0:
@@ -61,25 +61,25 @@ func VerifC03OriginFaults() {
 			case 4: // the origin accepted, read the request and closed without a byte: the transport reports a bare io.EOF
 				return nil, io.EOF
 			case 5: // dial or handshake timeout
-				return nil, originTimeout{}
+				return nil, zzoriginTimeout{}
 			case 3: // wrapped once more, as http.Client does
 				return nil, &url.Error{Op: "Get", URL: "http://example.com/one", Err: &net.OpError{Op: "dial", Net: "tcp", Err: errors.New("unknown port")}}
 			}
 			return nil, errors.New("dial tcp: connection refused")
 		case 1:
-			return rawResponse([]byte("SSH-2.0-OpenSSH_8.9\r\n"), req)
+			return zzrawResponse([]byte("SSH-2.0-OpenSSH_8.9\r\n"), req)
 		default:
-			return rawResponse(full[:k], req)
+			return zzrawResponse(full[:k], req)
 		}
 	}
 	if fault == 2 {
 		k = vf.Choice("truncate-at", len(full)+1)
 	}
-	rm := &countingResMod{}
+	rm := &zzcountingResMod{}
 	p := NewProxy()
 	p.SetRoundTripper(o)
 	p.SetResponseModifier(rm)
-	serveConn(p, conn) // a Go panic anywhere in here is reported by the engine
+	zzserveConn(p, conn) // a Go panic anywhere in here is reported by the engine
 
 	out := conn.out.Bytes()
 	br := bufio.NewReader(bytes.NewReader(out))
@@ -125,14 +125,14 @@ func VerifC03ClientBytes() {
 	n := vf.Param("bytes")
 	prefix := []string{"", "GET ", "GET / HTTP/1.1\r\n", "POST / HTTP/1.1\r\nContent-Length: "}[vf.Choice("prefix", vf.Param("prefixes"))]
 	junk := vf.Bytes("junk", n)
-	conn := newClientConn("client", true, append([]byte(prefix), junk...))
-	o := &origin{}
+	conn := zznewClientConn("client", true, append([]byte(prefix), junk...))
+	o := &zzorigin{}
 	o.answer = func(i int, req *http.Request) (*http.Response, error) {
-		return rawResponse(resSpec{status: 200, hval: "y", body: []byte("ok")}.wire(), req)
+		return zzrawResponse(zzresSpec{status: 200, hval: "y", body: []byte("ok")}.wire(), req)
 	}
 	p := NewProxy()
 	p.SetRoundTripper(o)
-	serveConn(p, conn)
+	zzserveConn(p, conn)
 	vf.Assert(conn.closed >= 1, "connection-closed-at-the-end")
 	vf.Reach("done")
 }
@@ -145,14 +145,14 @@ func VerifC03ClientBytes() {
 // the close and nothing follows it.
 func VerifC03ConnectFailure() {
 	connect := []byte("CONNECT unreachable.example:443 HTTP/1.1\r\nHost: unreachable.example:443\r\n\r\n")
-	second := reqSpec{method: "GET", path: "/two", hval: "b"}
-	conn := newClientConn("client", true, connect, second.wire())
+	second := zzreqSpec{method: "GET", path: "/two", hval: "b"}
+	conn := zznewClientConn("client", true, connect, second.wire())
 	shape := vf.Choice("refusal-shape", 3)
-	o := &origin{}
+	o := &zzorigin{}
 	o.answer = func(i int, req *http.Request) (*http.Response, error) {
-		return rawResponse(resSpec{status: 200, hval: "y", body: []byte("second")}.wire(), req)
+		return zzrawResponse(zzresSpec{status: 200, hval: "y", body: []byte("second")}.wire(), req)
 	}
-	rm := &countingResMod{}
+	rm := &zzcountingResMod{}
 	p := NewProxy()
 	p.SetRoundTripper(o)
 	p.SetResponseModifier(rm)
@@ -165,7 +165,7 @@ func VerifC03ConnectFailure() {
 		}
 		return nil, errors.New("dial tcp: connection refused")
 	})
-	serveConn(p, conn)
+	zzserveConn(p, conn)
 
 	out := conn.out.Bytes()
 	br := bufio.NewReader(bytes.NewReader(out))
